@@ -20,9 +20,10 @@ def shapes(tier):
 
 
 def block_shapes(tier):
+    # smoothing levels as in C06/C07: ntheta % 4 == 0, nr odd, at least 3 smoother circles and 3 nodes per radial line
     if tier == "quick":
         return [(7, 8, 3, False), (7, 8, 3, True), (9, 8, 4, False)]
-    return [(7, 8, 3, False), (7, 8, 3, True), (9, 8, 4, False), (9, 8, 4, True), (7, 12, 3, False), (9, 8, 9, True), (7, 8, 0, False)]
+    return [(7, 8, 3, False), (7, 8, 3, True), (9, 8, 4, False), (9, 8, 4, True), (7, 12, 3, False), (9, 12, 4, True), (11, 8, 5, False)]
 
 
 def line_blocks(ck, tier):
